@@ -204,27 +204,35 @@ def rule_stream(facts):
         r.ob(ok)
         if not ok:
             r.violations.append(V("STREAM", q, "iterator touched outside the refill", "%s uses Stream.iter as %s (allowed %s): items could be pulled twice or out of order" % (q, sorted(ks), sorted(allowed)), *loc(facts.by_qname[q][0])))
-    # (2) the cache only grows: the only mutating call on `tokens` is extend, fed from the iterator
+    # (2) the cache only grows: the only mutating calls on `tokens` append
+    APPEND = {"extend", "push", "extend_from_slice", "append", "reserve"}
     muts = []
     for x in facts.bodies:
-        xp = None
         for _, bl, t, f in calls(x):
             if f is None or not t["args"]:
                 continue
             dp = mirq.direct_place(x, t["args"][0]["op"])
             if dp is not None and has_field(dp, "stream::Stream", "tokens") and t["args"][0]["ty"].startswith("&mut"):
                 muts.append((x["qname"], f["name"]))
-    ok = set(muts) <= {("stream::Stream[input::ValueInput]::next", "extend")} and len(muts) >= 1
+    ok = all(q == "stream::Stream[input::ValueInput]::next" and n_ in APPEND for q, n_ in muts) and len(muts) >= 1
     r.ob(ok)
     if not ok:
-        r.violations.append(V("STREAM", b["qname"], "cache mutated other than by appending", "Stream.tokens is mutated by %s; only `extend` from the iterator may touch it" % muts, *loc(b)))
-    # (3) the refill is guarded by `tokens.len() <= cursor`, pulls from the iterator, and the token served is tokens.get(cursor)
-    ext = [(i, t) for i, bl, t, f in calls(b) if f is not None and f["name"] == "extend"]
-    ok = len(ext) == 1
-    why = "%d extend calls" % len(ext)
+        r.violations.append(V("STREAM", b["qname"], "cache mutated other than by appending", "Stream.tokens is mutated by %s; only appending calls in the refill may touch it" % muts, *loc(b)))
+    # (3) every pull from the iterator sits on the `tokens.len() <= cursor` side of the guard; the token served is tokens.get(cursor)
+    pulls = set()
+    for i, bl, t, f in calls(b):
+        for a in t["args"]:
+            dp = mirq.direct_place(b, a["op"])
+            if dp is not None and has_field(dp, "stream::Stream", "iter") and a["ty"].startswith("&mut"):
+                pulls.add(i)
+    # `(&mut this.iter).take(n)` : the &mut is created by a statement, the adaptor call receives it
+    for i, bl, s_ in assigns(b):
+        rv = s_["rv"]
+        if rv["k"] == "ref" and rv.get("mut") and has_field(rv["place"], "stream::Stream", "iter"):
+            pulls.add(i)
+    ok = len(pulls) >= 1
+    why = "%d pull sites" % len(pulls)
     if ok:
-        src = pv.of_operand(ext[0][1]["args"][1]["op"])
-        from_iter = mirq.roots_mention(src, lambda y: isinstance(y, tuple) and y[:1] == ("arg",) and y[1] == 1 and "iter" in y[2:])
         guard_ok = False
         for i, bl in mirq.blocks(b):
             t = bl["term"]
@@ -233,14 +241,11 @@ def rule_stream(facts):
             op = mirq.operand_place(t["op"])
             if op is None:
                 continue
-            g = pv.of_local(op["l"])
-            for x in g:
+            for x in pv.of_local(op["l"]):
                 if x[0] == "bin" and x[1] in ("Le", "Ge", "Lt", "Gt"):
-                    a_, b_ = fmt_roots(x[2]), fmt_roots(x[3])
-                    form = (x[1], a_, b_)
+                    form = (x[1], fmt_roots(x[2]), fmt_roots(x[3]))
                     lenr, curr = "len(arg1.tokens)", "arg2"
-                    true_t = t["otherwise"]
-                    false_t = t["targets"][0][1]
+                    true_t, false_t = t["otherwise"], t["targets"][0][1]
                     if form in (("Le", lenr, curr), ("Ge", curr, lenr)):
                         pull_side = true_t
                     elif form in (("Gt", lenr, curr), ("Lt", curr, lenr)):
@@ -248,17 +253,20 @@ def rule_stream(facts):
                     else:
                         continue
                     other = false_t if pull_side == true_t else true_t
-                    guard_ok = ext[0][0] in mirq.reachable(b, pull_side, avoid={other}) and ext[0][0] not in mirq.reachable(b, other, avoid={pull_side})
-        gets = [(t, f) for _, _, t, f in calls(b) if f is not None and f["name"] == "get"]
+                    # no pull is reachable without passing through the pull side of this guard
+                    no_guarded = mirq.reachable(b, 0, avoid={pull_side})
+                    if not (pulls & no_guarded) and (pulls & mirq.reachable(b, pull_side)):
+                        guard_ok = True
+        gets = [(t, f) for _, _, t, f in calls(b) if f is not None and f["name"] in ("get", "index")]
         get_ok = len(gets) == 1 and pv.of_operand(gets[0][0]["args"][0]["op"]) == {("arg", 1, "tokens")} and \
             all(x == ("arg", 2) for x in pv.of_operand(gets[0][0]["args"][1]["op"]))
-        ok = from_iter and guard_ok and get_ok
-        why = "pull from iter=%s, guarded by tokens.len() <= cursor=%s, serves tokens.get(cursor)=%s" % (from_iter, guard_ok, get_ok)
+        ok = guard_ok and get_ok
+        why = "pulls from the iterator only under tokens.len() <= cursor=%s, serves tokens.get(cursor)=%s" % (guard_ok, get_ok)
     r.ob(ok)
     r.samples.append({"Stream::next": why})
     if not ok:
         r.violations.append(V("STREAM", b["qname"], "refill discipline",
-                              "Stream::next must pull from the iterator exactly when tokens.len() <= cursor, append the pulled items to the "
+                              "Stream::next must pull from the iterator only when tokens.len() <= cursor, append the pulled items to the "
                               "cache and serve tokens.get(cursor): %s" % why, *loc(b)))
     r.explanation = ("Stream: the iterator is advanced at one site only (the refill in ValueInput::next, under the guard tokens.len() <= cursor), "
                      "its items are only appended to the cache, tokens are served by index from the cache; the cursor is a plain index so "
